@@ -173,6 +173,30 @@ def r14_9(ctx: Ctx) -> None:
                       "header has no digest (archives written by py7zr itself before it stored one) a crash leaves a file that opens without error as an empty archive",
                       construct=f"{name} overwrites before voiding")
     ctx.floor("R14.9", n, 4, "writes over the old header in append sessions")
+    # the voiding itself happens for an append session that has not voided yet: the placeholder write stands under exactly these conditions, with
+    # these polarities (`"a" in self.mode` true, the done-flag false); a condition the wrong way round never voids in the one mode that needs it
+    v = shared.szf(ctx, "_void_start_header")
+    sk = [c for c in q.calls(v) if attr_tail(c) == "_write_skeleton"]
+    ctx.floor("R14.9", len(sk), 1, "placeholder write in _void_start_header")
+    for c in sk:
+        bad = []
+        for cd, pol in q.facts_at(v, c):
+            t = norm(cd)
+            if isinstance(cd, ast.BoolOp):
+                bad.append((cd, pol))  # a compound condition that is FALSE here: not the conjunction the voiding needs
+            elif isinstance(cd, ast.Compare) and "mode" in t and isinstance(cd.ops[0], (ast.In, ast.Eq)):
+                if not (pol and any(isinstance(x, ast.Constant) and x.value == "a" for x in ast.walk(cd))):
+                    bad.append((cd, pol))
+            elif isinstance(cd, ast.Compare) and "mode" in t:
+                bad.append((cd, pol))  # `"a" not in self.mode`, `mode != "a"` ...
+            elif "voided" in t:
+                if pol:
+                    bad.append((cd, pol))
+            else:
+                bad.append((cd, pol))
+        ctx.check(not bad, "R14.9", v, c, "the placeholder is written for an append session that has not written it yet",
+                  "_void_start_header writes the placeholder under " + "; ".join(f"`{norm(cd)}` {'true' if pol else 'false'}" for cd, pol in bad) + ": not (exactly) for an append session "
+                  "that has not voided yet, so the old start header keeps verifying while the session's data overwrites the old header", construct="voiding condition")
 
 
 def run(ctx: Ctx) -> None:
